@@ -913,11 +913,11 @@ ImplBuildOutline(d) ==
                           !.objs = [id \in DOMAIN d.objs \cup new |-> IF id \in new THEN obj(id) ELSE d.objs[id]]],
                 ResOk(root))
 
-\* writer.rs: saving only touches cross-reference bookkeeping (outside pi); a cross-reference
-\* stream takes one more object number
+\* writer.rs: the loaded document's max_id is Size - 1, which counts the cross-reference stream
 \* (max_id is first raised to the highest number in use: set_object does not maintain it)
 SavedMax(d, fmt) == LET m == MaxOf({d.max_id} \cup DOMAIN d.objs) IN IF fmt = "stream" THEN m + 1 ELSE m
-ImplSave(d, fmt) == Out([d EXCEPT !.max_id = SavedMax(d, fmt)], ResOk(0))
+\* saving leaves the document as it was, but for that (whatever the cross-reference format; fix 6149d6f)
+ImplSave(d, fmt) == Out([d EXCEPT !.max_id = MaxOf({d.max_id} \cup DOMAIN d.objs)], ResOk(0))
 \* ... and loading the saved bytes gives the same objects; pending bookmarks are not part of a file
 ImplSaveLoad(d, fmt) == Out([d EXCEPT !.max_id = SavedMax(d, fmt), !.bms = <<>>], ResOk(0))
 
@@ -934,7 +934,8 @@ Rename(o, f) ==
 ApplyRenaming(d, f) ==            \* f: a bijection on DOMAIN d.objs
     LET r   == Reach(d)
         inv == [nid \in {f[id] : id \in DOMAIN d.objs} |-> CHOOSE id \in DOMAIN d.objs : f[id] = nid]
-    IN [d EXCEPT !.objs = [nid \in DOMAIN inv |-> IF inv[nid] \in r THEN Rename(d.objs[inv[nid]], f) ELSE d.objs[inv[nid]]],
+    \* (the references of every object are rewritten, reachable or not; fix b512058)
+    IN [d EXCEPT !.objs = [nid \in DOMAIN inv |-> Rename(d.objs[inv[nid]], f)],
                  !.trailer = Rename(DictO(d.trailer), f).v,
                  \* (a bookmark whose target names no object is sent to the never-used id (0, 65535): number 0)
                  !.bms = [i \in 1..Len(d.bms) |-> IF d.bms[i] \in DOMAIN f THEN f[d.bms[i]] ELSE 0]]
